@@ -10,13 +10,15 @@
 (*   isoR[s+1] : it is a right isometry (sum over physical index and right *)
 (*               bond = 1)                                                 *)
 (* A record is a pair <<lo, hi>> (inclusive range outside which the        *)
-(* tensors are isometric), or None, or Calc ("ask the detector").          *)
+(* tensors are isometric), or None, or Calc ("ask the detector"), or       *)
+(* Absent (the info dict has no "cur_orthog" entry).                       *)
 (***************************************************************************)
 EXTENDS Integers, Sequences, FiniteSets, TLC
 
 None == <<-1, -1>>
 Calc == <<-2, -2>>
-IsPair(r) == r # None /\ r # Calc
+Absent == <<-4, -4>>
+IsPair(r) == r # None /\ r # Calc /\ r # Absent
 
 Min2(a, b) == IF a <= b THEN a ELSE b
 Max2(a, b) == IF a >= b THEN a ELSE b
